@@ -7,10 +7,28 @@
 #include "vrt.h"
 #include <stdio.h>
 #include <string.h>
+#include "dll.h"
 
 static nsync_mu mu;
 static int data[4];
 static int total_w;
+
+/* canonical snapshot: the mutex queue as the list of waiter blocks, head first */
+static void snapshot (char *buf, size_t n) {
+	size_t k = 0;
+	nsync_dll_element_ *last = mu.waiters, *p;
+	k += snprintf (buf + k, n - k, "Q");
+	if (last != NULL) {
+		p = last->next;
+		for (;;) {
+			char nm[40];
+			vrt_region_name (p->container, nm, sizeof (nm));
+			k += snprintf (buf + k, n - k, " %s", nm);
+			if (p == last || k > n - 48) break;
+			p = p->next;
+		}
+	}
+}
 
 static void section (int writer) {
 	vrt_acquired (&mu, writer);
@@ -55,6 +73,7 @@ int main (void) {
 	int i, n = vrt_opt ("N", 2 + (int) vrt_rand (3));
 	static char names[8][8];
 	vrt_register (&mu, sizeof (mu), "mu0");
+	vrt_set_snapshot (snapshot);
 	for (i = 0; i < n; i++) {
 		snprintf (names[i], 8, "t%d", i);
 		vrt_thread (names[i], worker, i == 0 ? (void *) 1 : NULL);
